@@ -282,6 +282,29 @@ def expad_cases(ctx, k, K):
         if np.abs(S[:3]).max() <= 10:
             E = ref.mp_expm(adr)
             near(ctx, cid, 'Twist3.Ad', dict(P, law='exp(ad S)'), r[1], E, 1e-7, 'exp(ad(S)) = Ad(exp(S))')
+        # equivalent spellings of the exponential in the identity exp(ad(S)) = Ad(exp(S)): the 4x4 form with and without validation, the
+        # class constructor, and - for S = theta * S1 with S1 of unit rotational part - S1.exp(theta) for theta up to many turns
+        import spatialmath.base as b
+        if np.abs(S[:3]).max() <= 10:
+            for sp, f in (('trexp(vec)', lambda: b.trexp(S.copy())), ('trexp(mat)', lambda: b.trexp(ref.skewa(S))), ('trexp(mat,check=False)', lambda: b.trexp(ref.skewa(S), check=False)),
+                          ('SE3.Exp(mat,check=False)', lambda: sm.SE3.Exp(ref.skewa(S), check=False).A), ('SE3.Exp(vec)', lambda: sm.SE3.Exp(S.copy()).A)):
+                ok, T_ = call(f)
+                if not ok:
+                    ctx.fail(cid, 'base.trexp', 'raises:' + type(T_).__name__, dict(P, law='Ad(exp S)', spelling=sp), '%s raised %r' % (sp, T_))
+                else:
+                    near(ctx, cid, 'base.trexp', dict(P, law='Ad(exp S)', spelling=sp), ref.adjoint(np.asarray(T_, dtype=float)), want, 1e-7, 'Ad(%s)' % sp)
+        wn = float(np.linalg.norm(S[3:]))
+        if wn > 1e-3 and np.abs(S[:3]).max() <= 10:
+            S1 = S / wn
+            for turns in (0, 1, 3, 1000):
+                tht = wn + 2 * math.pi * turns
+                ok, T_ = call(lambda: sm.Twist3(S1.copy()).exp(tht).A)
+                Pm = dict(P, law='Ad(exp S)', spelling='S1.exp(theta)', turns=turns)
+                if not ok:
+                    ctx.fail(cid, 'Twist3.exp', 'raises:' + type(T_).__name__, Pm, 'exp(theta) raised %r' % (T_,))
+                else:
+                    wt = ref.adjoint(ref.mp_exp_se3(S1 * tht))
+                    near(ctx, cid, 'Twist3.exp', Pm, ref.adjoint(np.asarray(T_, dtype=float)), wt, 1e-7 * max(1.0, turns), 'Ad(S1.exp(theta)), theta = |w| + %d turns' % turns)
         # the twist among M values (M = 2, 3) and in an object with a history: ad() of value j is the ad of value j
         others = [np.array([1.0, 2.0, 3.0, 0.3, -0.2, 0.1]), np.array([-0.5, 0.0, 2.5, 0.0, 0.0, 0.0])]
         for M, pos in ((2, 0), (2, 1), (3, 1)):
